@@ -49,6 +49,17 @@ theorem monitor_setup_is_serialised :
     shapeMonitor = [1, 2, 3, 4, 5, 6] ∧ shapeMonitorCond = [1, 2, 3, 4, 5, 6] ∧ shapeMonitorCondSince = [1, 2, 3, 4, 5, 6] := by
   decide
 
+/-- C13: the row cache stores clones of what it is handed ... -/
+theorem cache_stores_clones : cacheStoresUncloned = [] := by decide
+
+/-- ... and hands out clones: the one function that lets a cached model out as it
+    is, is the documented read-only `RowsShallow` -/
+theorem cache_hands_out_clones : cacheRawEscapes = ["RowCache.RowsShallow"] := by decide
+
+/-- the client package clones what it keeps of `RowsShallow` -/
+theorem client_clones_shallow_rows :
+    clientShallowUsers.all (fun u => u.2) = true := by decide
+
 /-- `acyclic` does detect a cycle (the lock order of the pinned client:
     monitorsMutex -> rpcMutex in Monitor, rpcMutex -> monitorsMutex in connect) -/
 example : acyclic [(2, 3), (3, 2)] = false := by decide
